@@ -254,3 +254,34 @@ Definition d6_history : list op :=
     OpExecEnd s_plan [] CSucceeded [] true false ].
 Definition d6_state : st := run_ops d6_history (init_st 100).
 Definition d6_sys : sys := mkSys d6_state [(s_atxt, 7)].
+
+(* The same defect in the other window (D6b): an optional step whose consumer is dropped.
+   build 1: plan defines optional "o" -> o.txt and its consumer "u" (o.txt -> u.txt); all run.
+   build 2: the plan only defines "o": u is dropped, o is no longer needed and gets reverted. *)
+Definition s_o : str := [111].                          (* "o" *)
+Definition s_u : str := [117].                          (* "u" *)
+Definition s_otxt : str := [111;46;116;120;116].        (* "o.txt" *)
+Definition s_utxt : str := [117;46;116;120;116].        (* "u.txt" *)
+Definition d6b_history : list op :=
+  [ OpDefineStep root_key s_plan [] [] [] [] NPlan;
+    OpDispatch s_plan; OpResetForRerun s_plan;
+    OpDefineStep (KStep, s_plan) s_o [] [] [s_otxt] [] NOptional;
+    OpDefineStep (KStep, s_plan) s_u [s_otxt] [] [s_utxt] [] NDefault;
+    OpExecEnd s_plan [] CSucceeded [] true false;
+    OpDispatch s_o; OpResetForRerun s_o;
+    OpExecEnd s_o [] CSucceeded [(s_otxt, Some 5)] true false;
+    OpDispatch s_u; OpResetForRerun s_u;
+    OpExecEnd s_u [] CSucceeded [(s_utxt, Some 6)] true false;
+    OpMarkStepPending s_plan; OpDispatch s_plan; OpResetToPending s_plan;
+    OpDispatch s_plan; OpResetForRerun s_plan;
+    OpDefineStep (KStep, s_plan) s_o [] [] [s_otxt] [] NOptional;
+    OpExecEnd s_plan [] CSucceeded [] true false ].
+Definition d6b_state : st := run_ops d6b_history (init_st 100).
+Definition d6b_sys : sys := mkSys d6b_state [(s_otxt, 5); (s_utxt, 6)].
+
+(* executable form of [no_orphans_at] *)
+Definition no_orphans_b (w : window) (opt : list str) (x : sys) : bool :=
+  match cleanup opt x, crash_then_restart w opt x with
+  | Ok y, Ok z => same_paths (dk z) (dk y)
+  | _, _ => true
+  end.
